@@ -174,6 +174,18 @@ static int run_lu(Rng& rng) {
                 for (auto& t : trip) std::printf(" %d:%d:%s", std::get<0>(t), std::get<1>(t), hx(std::get<2>(t)).c_str());
             }
             std::printf(" |"); pv(b); std::printf(" |"); pv(x); std::printf(" => CHECK ok\n");
+            if (r == 0) {
+                // any right-hand side: solve(2^e b) = 2^e solve(b) bit for bit (power-of-two scaling commutes with rounding)
+                for (int e : {-70, -45, 70}) {
+                    std::vector<double> bs(n), xs;
+                    for (int i = 0; i < n; i++) bs[i] = std::ldexp(b[i], e);
+                    xs = bs; lu.solveInPlace(xs.data());
+                    bool same = true;
+                    for (int i = 0; i < n; i++) same = same && xs[i] == std::ldexp(x[i], e);
+                    std::printf("PROP lu-solve-scaling n=%d exponent=%d => %s\n", n, e,
+                                same ? "ok" : "FAIL solve(2^e b) differs from 2^e solve(b): small or large right-hand sides are treated differently");
+                }
+            }
         }
     }
     return 0;
